@@ -43,7 +43,8 @@ Proof.
   rewrite (in_range_cases _ _ Eneg).
   destruct (existsb (fun z => (Z.of_nat (length (sshape S)) <=? z)%Z) oldz) eqn:Ebig; cbn [negb]; [reflexivity|].
   unfold with_shape, shape_of. destruct (parse_shape x) as [nz|]; cbn [bind]; [|reflexivity].
-  rewrite nats_of_cases. destruct (existsb (fun d => (d <? 0)%Z) nz); [reflexivity|].
+  destruct nz as [|z0 nz]; [reflexivity|].
+  rewrite nats_of_cases. destruct (existsb (fun d => (d <? 0)%Z) (z0 :: nz)); [reflexivity|].
   apply reshape_sp_gen_bridge; auto.
   - now apply map_to_nat_nonnil.
   - apply Forall_forall. intros k Hk.
@@ -57,7 +58,8 @@ Theorem reshape_sp_code_all (S : sparse V) (x : pyshp) : ok_store S -> sshape S 
 Proof.
   intros [Hin Hlen] Hne. unfold reshape_sp_code, reshape_sp_all_req, with_shape, shape_of.
   destruct (parse_shape x) as [nz|]; cbn [bind]; [|reflexivity].
-  rewrite nats_of_cases. destruct (existsb (fun d => (d <? 0)%Z) nz); [reflexivity|].
+  destruct nz as [|z0 nz]; [reflexivity|].
+  rewrite nats_of_cases. destruct (existsb (fun d => (d <? 0)%Z) (z0 :: nz)); [reflexivity|].
   unfold reshape_sp_all. apply reshape_sp_gen_bridge; auto.
   - destruct (sshape S); [congruence|discriminate].
   - apply Forall_forall. intros k Hk. apply in_seq in Hk. lia.
@@ -83,6 +85,17 @@ Proof.
   symmetry. apply existsb_exists. exists d. split; [exact Hin|now apply Z.ltb_lt].
 Qed.
 
+(* a target without modes ((), []) is refused by every reshape, whatever the holder stores *)
+Theorem reshape_empty_target_refused (T : dense V) (S : sparse V) x oldz o : parse_shape x = Ok [] ->
+  reshape_d_req v0 T x = None /\ reshape_sp_all_req S x = None /\ reshape_sp_req S x oldz = None /\
+  reshape_sp_code S x o = Err.
+Proof.
+  intros H. unfold reshape_d_req, reshape_sp_all_req, reshape_sp_req, with_shape, shape_of, reshape_sp_code. rewrite H.
+  split; [reflexivity|]. split; [reflexivity|]. split.
+  - destruct (nats_of oldz); [|reflexivity]. now destruct (forallb _ l).
+  - destruct (match o with None => _ | Some l => _ end); reflexivity.
+Qed.
+
 (* what an answered request has said: the listed modes are modes of the tensor, the sizes are sizes, and the result is the
    subset reshape of Model/C07Ops.v (index law: C07_reshape_sparse_subset_bijection) *)
 Theorem reshape_sp_code_sound (S : sparse V) x oldz R : ok_store S -> oldz <> [] ->
@@ -92,6 +105,127 @@ Theorem reshape_sp_code_sound (S : sparse V) x oldz R : ok_store S -> oldz <> []
 Proof.
   intros HS Hne E. pose proof (reshape_sp_code_req S x oldz HS Hne) as B. rewrite E in B. cbn [res_opt] in B.
   symmetry in B. now apply reshape_sp_req_modes in B.
+Qed.
+
+(* the index law for the code path: an answered request with distinct listed modes moves every entry to
+   kept ++ ind2sub(new, sub2ind(shape[old], i[old])) — the mode listed FIRST varies fastest — changes no value, and every
+   result index comes from exactly the source index unreshape_row gives *)
+Theorem reshape_sp_code_law (isz : V -> bool) (S : sparse V) x oldz R : ok_store S -> oldz <> [] -> NoDup oldz ->
+  reshape_sp_code S x (Some oldz) = Ok R ->
+  exists old s', oldz = map Z.of_nat old /\ parse_shape x = Ok (map Z.of_nat s') /\
+    let s := sshape S in
+    sshape R = pick 0 (keep_modes (length s) old) s ++ s' /\ svals R = svals S /\ nnz R = nnz S /\
+    (wf_sp isz S -> wf_sp isz R) /\
+    (forall i, inb s i = true -> inb (sshape R) (reshape_row s s' old i) = true /\
+                                 den_sp v0 R (reshape_row s s' old i) = den_sp v0 S i) /\
+    (forall j, den_sp v0 R j = if inb (sshape R) j then den_sp v0 S (unreshape_row s s' old j) else v0) /\
+    (forall i, inb s i = true -> unreshape_row s s' old (reshape_row s s' old i) = i).
+Proof.
+  intros HS Hne Hnd E. destruct (reshape_sp_code_sound S x oldz R HS Hne E) as (old & s' & -> & Hold & Hp & HR).
+  exists old, s'. split; [reflexivity|]. split; [exact Hp|]. cbv zeta.
+  assert (Hnd' : NoDup old) by (eapply NoDup_map_inv; exact Hnd).
+  assert (Hsz : size s' = size (pick 0 old (sshape S))).
+  { unfold reshape_sp in HR. destruct (Nat.eqb_spec (size s') (size (pick 0 old (sshape S)))); [assumption|discriminate]. }
+  destruct HS as [Hin _].
+  destruct (reshape_sparse_correct v0 isz S s' old Hold Hsz Hin) as (R1 & HR1 & Hsh & Hv & Hn & Hw & Hfw & _).
+  destruct (reshape_sparse_subset_bijection v0 isz S s' old Hold Hnd' Hsz Hin) as (R2 & HR2 & _ & _ & Hleft & Hden & _).
+  rewrite HR in HR1, HR2. injection HR1 as <-. injection HR2 as <-.
+  split; [exact Hsh|]. split; [exact Hv|]. split; [exact Hn|]. split; [exact Hw|]. split; [exact Hfw|].
+  split; [exact Hden|exact Hleft].
+Qed.
+
+(* ---------------- sparse squeeze on every shape (the demanded behaviour; N-C07-7) *)
+Lemma sqn_nil_zero s i : sqn s s = [] -> inb s i = true -> i = repeat 0 (length s).
+Proof.
+  revert i; induction s as [|d s IH]; intros [|x i] E H; cbn [inb] in H; try discriminate; auto.
+  apply andb_true_iff in H as [Hx Hi]. apply Nat.ltb_lt in Hx. cbn [sqn] in E.
+  destruct (Nat.eqb_spec d 1) as [->|Hd]; [|discriminate].
+  cbn [length repeat]. f_equal; [lia|]. now apply IH.
+Qed.
+
+Lemma sqn_inj s i j : inb s i = true -> inb s j = true -> sqn s i = sqn s j -> i = j.
+Proof.
+  intros Hi Hj E. apply (sub2ind_inj s); auto.
+  destruct (sqn_index s i Hi) as (<- & _). destruct (sqn_index s j Hj) as (<- & _). now rewrite E.
+Qed.
+
+Lemma inb_zero_mode s i : In 0 s -> inb s i = false.
+Proof.
+  revert i; induction s as [|d s IH]; intros i H; [destruct H|]. destruct i as [|x i]; [reflexivity|]. cbn [inb].
+  destruct H as [->|H]; [reflexivity|]. rewrite (IH i H). apply andb_false_r.
+Qed.
+
+Theorem squeeze_sparse_any (isz : V -> bool) (S : sparse V) :
+  Forall (fun j => inb (sshape S) j = true) (ssubs S) ->
+  match squeeze_sp_any v0 S with
+  | SqT R => sshape R = sqn (sshape S) (sshape S) /\ svals R = svals S /\ nnz R = nnz S /\
+             (wf_sp isz S -> wf_sp isz R) /\
+             (forall i, inb (sshape S) i = true ->
+                inb (sshape R) (sqn (sshape S) i) = true /\ den_sp v0 R (sqn (sshape S) i) = den_sp v0 S i)
+  | SqScalar v => sqn (sshape S) (sshape S) = [] /\ (forall i, inb (sshape S) i = true -> v = den_sp v0 S i)
+  end.
+Proof.
+  intros Hb. unfold squeeze_sp_any. destruct (forallb (fun d => negb (Nat.eqb d 1)) (sshape S)) eqn:Hall.
+  - split; [now rewrite sqn_all|]. split; auto. split; auto. split; auto.
+    intros i Hi. rewrite sqn_all by (auto; now apply inb_length). auto.
+  - destruct (sqn (sshape S) (sshape S)) as [|d r] eqn:Es.
+    + split; auto. intros i Hi. now rewrite (sqn_nil_zero _ _ Es Hi).
+    + cbn [sshape ssubs svals]. split; [reflexivity|]. split; [reflexivity|].
+      split; [unfold nnz; cbn; now rewrite map_length|]. rewrite <- Es. split.
+      * intros W. apply (wf_sp_map isz (sqn (sshape S)) (fun j => inb (sshape S) j = true)); auto.
+        -- intros a b. apply sqn_inj.
+        -- intros a Ha. now destruct (sqn_index _ _ Ha) as (_ & E).
+      * intros i Hi. split; [now destruct (sqn_index _ _ Hi) as (_ & E)|].
+        apply (den_sp_map v0 (sqn (sshape S)) (fun j => inb (sshape S) j = true)); auto.
+        intros a b. apply sqn_inj.
+Qed.
+
+(* on positive sizes: the squeeze model of Model/C07Ops.v (and so the code as written, C07_squeeze_sparse_code) *)
+Theorem squeeze_sp_any_pos (S : sparse V) : forallb (Nat.ltb 0) (sshape S) = true -> squeeze_sp_any v0 S = squeeze_sp v0 S.
+Proof.
+  intros H. unfold squeeze_sp_any, squeeze_sp. rewrite (ne1_lt1 _ H), (sqn_sqz _ _ H).
+  destruct (forallb (Nat.ltb 1) (sshape S)); [reflexivity|]. destruct (sqz (sshape S) (sshape S)); [reflexivity|].
+  do 2 f_equal. apply map_ext. intros j. now apply sqn_sqz.
+Qed.
+
+(* with a size-0 mode: nothing can be stored, every size-0 mode is kept, the answer is a tensor *)
+Theorem squeeze_sparse_zero_mode (S : sparse V) : Forall (fun j => inb (sshape S) j = true) (ssubs S) -> In 0 (sshape S) ->
+  ssubs S = [] /\ exists R, squeeze_sp_any v0 S = SqT R /\ sshape R = sqn (sshape S) (sshape S) /\ In 0 (sshape R) /\ ssubs R = [].
+Proof.
+  intros Hb H0.
+  assert (Hs : ssubs S = []).
+  { destruct (ssubs S) as [|j l]; [reflexivity|]. inversion Hb as [|? ? Hj _]. now rewrite (inb_zero_mode _ j H0) in Hj. }
+  split; [exact Hs|]. unfold squeeze_sp_any. destruct (forallb (fun d => negb (Nat.eqb d 1)) (sshape S)) eqn:Hall.
+  - exists S. split; [reflexivity|]. rewrite sqn_all by auto. auto.
+  - pose proof (sqn_has_zero _ H0) as Hz. destruct (sqn (sshape S) (sshape S)) as [|d r] eqn:Es; [destruct Hz|].
+    eexists. split; [reflexivity|]. cbn [sshape ssubs]. rewrite Hs. auto.
+Qed.
+
+(* dense and sparse holders of the same data agree under squeeze on EVERY shape *)
+Theorem squeeze_agree_any (T : dense V) (S : sparse V) : wf_dense T -> sshape S = dshape T ->
+  Forall (fun j => inb (sshape S) j = true) (ssubs S) ->
+  (forall i, inb (dshape T) i = true -> den_sp v0 S i = den_dense v0 T i) ->
+  match squeeze_d v0 T, squeeze_sp_any v0 S with
+  | SqT T', SqT S' => sshape S' = dshape T' /\
+       forall i, inb (dshape T) i = true -> den_sp v0 S' (sqn (dshape T) i) = den_dense v0 T' (sqn (dshape T) i)
+  | SqScalar a, SqScalar b => a = b
+  | _, _ => False
+  end.
+Proof.
+  intros W Hs Hb Hag.
+  pose proof (squeeze_dense_any v0 T W) as HD. pose proof (squeeze_sparse_any (fun _ => false) S Hb) as HS.
+  unfold squeeze_d, squeeze_sp_any in *. rewrite Hs in *.
+  destruct (forallb (fun d => negb (Nat.eqb d 1)) (dshape T)).
+  - destruct HD as (_ & _ & _ & HdT). destruct HS as (_ & _ & _ & _ & HdS). split; [exact Hs|].
+    intros i Hi. destruct (HdS i Hi) as [_ ->]. destruct (HdT i Hi) as [_ ->]. auto.
+  - destruct (sqn (dshape T) (dshape T)) as [|d r] eqn:Es.
+    + destruct HD as (_ & HdT). destruct HS as (_ & HdS).
+      assert (Hex : inb (dshape T) (repeat 0 (length (dshape T))) = true).
+      { clear -Es. induction (dshape T) as [|d s IH]; [reflexivity|]. cbn [sqn] in Es.
+        destruct (Nat.eqb_spec d 1) as [->|]; [|discriminate]. cbn [length repeat inb]. now rewrite (IH Es). }
+      rewrite (HdT _ Hex). symmetry. now apply Hag.
+    + destruct HD as (_ & _ & _ & HdT). destruct HS as (_ & _ & _ & _ & HdS). split; [reflexivity|].
+      intros i Hi. destruct (HdS i Hi) as [_ ->]. destruct (HdT i Hi) as [_ ->]. auto.
 Qed.
 
 (* ---------------- boolean orders *)
